@@ -812,6 +812,10 @@ func (t *ControllableTask) Kill() error {
 		}
 	}
 
+	pgid := 0
+	if t.rpc.TaskCmd != nil && t.rpc.TaskCmd.Process != nil {
+		pgid = t.rpc.TaskCmd.Process.Pid
+	}
 	_ = t.rpc.Close()
 	t.rpc = nil
 
@@ -831,14 +835,19 @@ func (t *ControllableTask) Kill() error {
 	}
 
 	if pidExists(pid) {
-		return t.doTermIntKill(pid)
+		err = t.doTermIntKill(pid)
 	} else {
 		log.WithField("taskId", t.ti.GetTaskID()).
 			WithField("partition", t.knownEnvironmentId.String()).
 			WithField("detector", t.knownDetector).
 			Debugf("task terminated on its own")
-		return nil
+		err = nil
 	}
+	if pgid > 0 {
+		// the task itself got its TERM/INT/KILL, now sweep whatever it left behind in its process group
+		_ = syscall.Kill(-pgid, syscall.SIGKILL)
+	}
+	return err
 }
 
 func (t *ControllableTask) doKill9(pid int) error {
